@@ -47,7 +47,13 @@ func genSchedCase() *rapid.Generator[Case] {
 			n := rapid.IntRange(1, 4).Draw(t, "nreads")
 			for i := 0; i < n; i++ {
 				o := Op{C: uni(t, 2, "coll")}
-				switch uni(t, 8, "rkind") {
+				switch uni(t, 11, "rkind") {
+				case 8:
+					o.K, o.Key = OpGetItem, key() // key-only lookup
+				case 9:
+					o.K, o.Key = OpExist, key()
+				case 10:
+					o.K, o.Flag, o.N, o.Key = OpVisit, uni(t, 2, "dir"), 1, key() // key-only visit
 				case 0, 1:
 					o.K, o.Key = OpGet, key()
 				case 2:
@@ -107,5 +113,31 @@ func TestC05(t *testing.T) {
 		}
 		nontrivial := ev["reads_overlapping_mutation"] >= 1 && ev["sched_switches"] >= 2
 		st.Note(c.Hash(), ev, nontrivial, func() string { return c.String() })
+	})
+}
+
+// TestC19Sched: C19's key-only rule under concurrency.  The schedules of the C05
+// engine are generated with a share of key-only reader ops (GetItem(k,false),
+// Exist, key-only visits); the file reads each of them issued (attributed
+// through the scheduler, which knows which worker runs) must not touch the value
+// bytes of anything flushed before the concurrent phase began - also when
+// another reader loads, or the mutator evicts, the same item in between.
+func TestC19Sched(t *testing.T) {
+	st := NewStats("C19", "concurrent phase: schedules of the cooperative scheduler (1 mutator, 1 flusher, 1-3 readers; yield points at every file call - before and after -, visitor callback and verifYield point) in which readers run key-only ops (GetItem(k,false), Exist, key-only ascending/descending visits) beside with-value readers, evictions and flushes on a re-opened/evicted pre-state; every ReadAt issued by a key-only op is intersected with the value byte ranges (independent decoder) of all states flushed before the phase: must be empty. Non-trivial = at least one key-only op actually read from the file with >=2 context switches.", commonAssumptions)
+	defer func() {
+		if p := outPath(); p != "" {
+			st.Write(p)
+		}
+	}()
+	gen := genSchedCase()
+	rapid.Check(t, func(rt *rapid.T) {
+		c := gen.Draw(rt, "case")
+		c.Cfg.Profile = "C19-sched"
+		v, ev := guarded("C19", c, func() (*Violation, map[string]int) { return RunSched(c) })
+		if v != nil {
+			p := saveFailure("C19", c, v)
+			rt.Fatalf("VIOLATION-CANDIDATE property=C19 sig=%q case=%s\n%s\ncase: %s", v.Sig, p, v.Error(), c.String())
+		}
+		st.Note(c.Hash(), ev, ev["keyonly_reads_checked"] > 0 && ev["sched_switches"] >= 2, func() string { return c.String() })
 	})
 }
